@@ -531,6 +531,49 @@ func ruleOptionalFieldSymmetry(c *core.Ctx) {
 		}
 		c.Check(gs[0] == ref, rule, "writeRecordConverter/"+n+"/same guard", d.Pos(), "guard: "+gs[0], "guard differs from the to_json omission guard: `"+gs[0]+"` vs `"+ref+"` — a field omitted on write is required on read (KeyError) or vice versa")
 	}
+	// the omission guard itself: a field is left out exactly when its (underlying) type has a null case and no
+	// dimensionality — an optional AND a union with a null case ([null, A, B]); the C++ runtime's
+	// ShouldSerializeFieldValue omits both (std::optional without value, std::variant holding a leading monostate)
+	for _, n := range names {
+		gs := groups[n]
+		if len(gs) != 1 {
+			continue
+		}
+		conj := strings.Split(gs[0], " ∧ ")
+		eval := func(hasNull, isOptional, hasDim string) bool {
+			asg := map[string]string{
+				"type(GetUnderlyingType(Field.Type))":   "GeneralizedType",
+				"GeneralizedType.Cases.HasNullOption()": hasNull,
+				"GeneralizedType.Cases.IsOptional()":    isOptional,
+				"GeneralizedType.Dimensionality != nil": hasDim,
+				"GeneralizedType.Dimensionality == nil": map[string]string{"true": "false", "false": "true"}[hasDim],
+			}
+			sat, unk := guardSat(mapStrings(conj, stripDsl), asg)
+			if sat && len(unk) > 0 {
+				// a predicate of the package around the test: evaluate its returns under the same assignment
+				for _, u := range unk {
+					neg := false
+					for _, cj := range conj {
+						if stripDsl(cj) == "!("+u+")" {
+							neg = true
+						}
+					}
+					v, known := evalBoolHelper(c, "internal/python/ndjson", u, asg)
+					if !known {
+						return false
+					}
+					if v == neg {
+						return false
+					}
+				}
+				return true
+			}
+			return sat && len(unk) == 0
+		}
+		okAll := eval("true", "true", "false") && eval("true", "false", "false") && !eval("false", "false", "false") && !eval("true", "true", "true")
+		c.Check(okAll, rule, "writeRecordConverter/"+n+"/omitted iff nullable scalar", d.Pos(), "omitted exactly for optionals and unions with a null case, without dimensionality",
+			"the omission guard `"+gs[0]+"` is not `has a null case and no dimensionality`: a record field of type [null, A, B] holding null is written as an explicit null (or required on reading) where the C++ side omits it / accepts its absence, so documents of one language are rejected by the other")
+	}
 	// O2: alias transparency of nullability tests in the NDJSON generators
 	for _, pkg := range []string{"internal/python/ndjson", "internal/cpp/ndjson"} {
 		pp := c.Pkg(pkg)
@@ -604,4 +647,55 @@ func exprShapeOf(e ast.Expr) string {
 		s = s[:60]
 	}
 	return s
+}
+
+// evalBoolHelper evaluates `helper(arg)` — a function of the package returning bool — under an assignment of model
+// atoms: the helper's parameter is renamed to the argument, its return rows are extracted, and the first return whose
+// guards hold gives the value.
+func evalBoolHelper(c *core.Ctx, pkgRel, call string, asg map[string]string) (bool, bool) {
+	i := strings.Index(call, "(")
+	if i <= 0 || !strings.HasSuffix(call, ")") {
+		return false, false
+	}
+	name, arg := call[:i], call[i+1:len(call)-1]
+	_, d, p := c.Func(pkgRel, name)
+	if d == nil || len(d.Type.Params.List) != 1 || len(d.Type.Params.List[0].Names) != 1 {
+		return false, false
+	}
+	prm := d.Type.Params.List[0].Names[0].Name
+	x := &gee.Extractor{Info: p.TypesInfo, Fset: c.Fset, AllReturns: true}
+	sub := func(s string) string {
+		s = stripDsl(s)
+		// the parameter is rendered by its type name; the argument at the call site by its own
+		pt := typeLabel(p.TypesInfo.TypeOf(d.Type.Params.List[0].Type))
+		pt = strings.TrimPrefix(pt, "*")
+		s = replaceIdent(s, prm, arg)
+		if strings.Contains(arg, ".") {
+			s = strings.ReplaceAll(s, "GetUnderlyingType("+pt+")", "GetUnderlyingType("+arg+")")
+		}
+		return s
+	}
+	for _, r := range x.Extract(name, d) {
+		if r.Kind != "return" {
+			continue
+		}
+		gs := mapStrings(r.Guards, sub)
+		sat, unk := guardSat(gs, asg)
+		if !sat {
+			continue
+		}
+		if len(unk) > 0 {
+			return false, false
+		}
+		val := strings.TrimPrefix(r.Tmpl, "VAL:")
+		switch val {
+		case "true":
+			return true, true
+		case "false":
+			return false, true
+		}
+		v, known, _ := boolExprValue(sub(val), asg)
+		return v, known
+	}
+	return false, false
 }
